@@ -1031,7 +1031,7 @@ class Grammar(PGFile):
                     productions = []
                     symbol_one = symbol
                     symbol = NonTerminal(
-                        f"{symbol_name}_g",
+                        f"{symbol_name}!",
                         productions,
                         base_symbol.location,
                         imported_with=imported_with,
@@ -1447,7 +1447,7 @@ def make_multiplicity_fqn(
             symbol_name,
             name_by_mult[multiplicity],
             f"_{separator_name}" if separator_name else "",
-            "_g" if greedy else "",
+            "!" if greedy else "",
         )
 
 
